@@ -292,6 +292,9 @@ def jsonable(x):
     if isinstance(x, dict): return {str(k): jsonable(v) for k, v in x.items()}
     if isinstance(x, (list, tuple)): return [jsonable(v) for v in x]
     if isinstance(x, float) and (math.isnan(x) or math.isinf(x)): return repr(x)
+    if hasattr(x, '__array__') and not isinstance(x, (str, bytes)):      # jax arrays and other array-likes in args / details
+        try: return jsonable(np.asarray(x))
+        except Exception: return repr(x)
     return x
 
 
@@ -423,9 +426,10 @@ def finish(ctx: Ctx, bres: BuildResult, theorems, t0, level_text='', replay_mode
     broken = list(bres.failed)
     broken += [f'table obligation {t["name"]}: {t["detail"]}' for t in ctx.to_results if not t['ok']]
     if ctx.mismatches:
-        broken.append(f'correspondence: {len(ctx.mismatches)} mismatching comparisons, first: {json.dumps(ctx.mismatches[0])[:600]}')
+        broken.append(f'correspondence: {len(ctx.mismatches)} mismatching comparisons, first: {json.dumps(jsonable(ctx.mismatches[0]))[:600]}')
     nviol = 0
     def write_replay(obj):
+        obj = jsonable(obj)
         h = hashlib.sha1(json.dumps(obj, sort_keys=True).encode()).hexdigest()[:12]
         path = os.path.join(VERIF, 'replay', f'{ctx.id}-{h}.json')
         with open(path, 'w') as fh: json.dump(obj, fh, indent=1)
@@ -489,5 +493,5 @@ def finish(ctx: Ctx, bres: BuildResult, theorems, t0, level_text='', replay_mode
           f'broken={len(broken)} wall={time.time()-t0:.1f}s exit={exit_code}')
     if broken:
         for b in broken[:5]: print('  broken:', b[:400])
-    for f in new_failures[:3]: print('  failing:', json.dumps(f)[:500])
+    for f in new_failures[:3]: print('  failing:', json.dumps(jsonable(f))[:500])
     return exit_code
